@@ -12,7 +12,10 @@ STEP_PROG = {
     "fin": {"pre": 0, "act": "fin"}, "log": {"pre": 1, "act": "none"}, "raise": {"pre": 0, "act": "raise"},
 }
 COMPAT = [[("a", pa.int32()), ("b", pa.string())], [("a", pa.int16()), ("b", pa.string())],
-          [("a", pa.int64()), ("b", pa.large_string())], [("a", pa.int32()), ("b", pa.large_string())]]
+          [("a", pa.int64()), ("b", pa.large_string())], [("a", pa.int32()), ("b", pa.large_string())],
+          [("b", pa.large_string()), ("a", pa.int32())],            # compatible types AND another column order
+          [("a", pa.uint16()), ("b", pa.string())],
+          [("a", pa.int64(), False), ("b", pa.string(), False)]]     # same types, declared non-nullable by the sender
 DIFFSET = ["extra", "missing", "renamed", "empty"]
 
 
@@ -40,7 +43,8 @@ def input_batch(x: int, k: int, pert: str, variant: dict) -> pa.RecordBatch:
                                           schema=pa.schema([pa.field("b", pa.string()), pa.field("a", pa.int64())]))
     if pert == "compat":
         fields = COMPAT[variant["pv"] % len(COMPAT)]
-        return pa.RecordBatch.from_pydict(vals, schema=pa.schema([pa.field(n, t) for n, t in fields]))
+        return pa.RecordBatch.from_pydict(vals, schema=pa.schema([pa.field(f[0], f[1], nullable=(f[2] if len(f) > 2 else True))
+                                                                  for f in fields]))
     kind = DIFFSET[variant["pv"] % len(DIFFSET)]
     if kind == "extra":
         return pa.RecordBatch.from_pydict({**vals, "c": [1] * len(vals["a"])},
@@ -78,6 +82,7 @@ def run_script(world, script: dict, x: int, variant: dict, timeout: float = 8.0)
     notes: list = []
     prog = make_prog(script, variant)
     kind, http = script["kind"], world.name == "http"
+    nwt = script.get("api") == "nwt"
 
     def note(x_, e):
         notes.append(f"{type(e).__name__}: {str(e)[:160]}")
@@ -115,6 +120,10 @@ def run_script(world, script: dict, x: int, variant: dict, timeout: float = 8.0)
                     ab = sess.exchange(AnnotatedBatch(batch=input_batch(x, st["k"], script["pert"], variant)))
                 elif not http:
                     ab = sess.tick()
+                elif nwt:
+                    ab, _token = sess.next_with_token()
+                    if ab is None:
+                        raise StopIteration
                 else:
                     if st["it"] is None:
                         st["it"] = iter(sess)
@@ -128,6 +137,9 @@ def run_script(world, script: dict, x: int, variant: dict, timeout: float = 8.0)
                 try:
                     if op == "t":
                         one_tick()
+                    elif op == "i" and nwt:
+                        while True:
+                            one_tick()
                     elif op == "i":
                         if not http or st["cancelled"] or st["it"] is None:
                             st["it"] = iter(sess)          # a new iteration
